@@ -390,6 +390,25 @@ def check_pack_pair(repo: Repo, rep, P: str, rule: str, writer_ci: ClassInfo, wr
         rep.violation(f"{P}.{rule}", rconstruct, f"def process_{cid}", f"reader has no handler for {cid}",
                       f"{reader_ci.file.rel}:{reader_ci.node.lineno}")
         return
+    # `unpack(FMT, data)[0]` used in place (a helper that returns the word was read through): name the word first
+    inplace = [n for n in ast.walk(handler) if isinstance(n, ast.Subscript) and isinstance(n.value, ast.Call) and norm(n.value.func) in ("unpack", "struct.unpack")
+               and isinstance(n.slice, ast.Constant) and n.slice.value == 0]
+    if inplace and len({norm(n) for n in inplace}) == 1 and not any(isinstance(st, ast.Assign) and isinstance(st.value, ast.Call)
+                                                                    and norm(st.value.func) in ("unpack", "struct.unpack") for st in ast.walk(handler)):
+        import copy as _copy
+        call0 = _copy.deepcopy(inplace[0].value)
+        text0 = norm(inplace[0])
+
+        class H(ast.NodeTransformer):
+            def visit_Subscript(self, node):
+                if norm(node) == text0:
+                    return ast.copy_location(ast.Name(id="__word", ctx=ast.Load()), node)
+                return self.generic_visit(node)
+        handler = H().visit(_copy.deepcopy(handler))
+        first = ast.Assign(targets=[ast.Tuple(elts=[ast.Name(id="__word", ctx=ast.Store())], ctx=ast.Store())], value=call0)
+        handler.body = [first] + handler.body
+        ast.fix_missing_locations(handler)
+        handler = inline.split_tuple_assigns(handler)
     # find `(x,) = unpack(FMT, data)`
     body = stmts_of(handler)
     xname = None
